@@ -221,6 +221,8 @@ func (o c14Op) name() string {
 		return "SetCode(" + c14AddrNames[o.a] + ",c2)"
 	case "endtx":
 		return "EndTx"
+	case "ir":
+		return "IntermediateRoot"
 	case "endblock":
 		return "EndBlock"
 	case "copyOnCopy":
@@ -241,7 +243,7 @@ func (a *c14Acct) stor() [c14NS]uint8 {
 func c14Ops() []c14Op {
 	var ops []c14Op
 	base := c14BaseView()
-	ops = append(ops, c14Op{kind: "endtx"}, c14Op{kind: "endblock"})
+	ops = append(ops, c14Op{kind: "endtx"}, c14Op{kind: "endblock"}, c14Op{kind: "ir"})
 	for _, a := range []int{0, 2} {
 		ops = append(ops,
 			c14Op{kind: "set", a: a, slot: 0, val: 3},
@@ -295,6 +297,7 @@ type c14Sys struct {
 	txOps    int
 	blockOps int
 	copied   bool
+	dirty    bool // a state operation was applied to the live object since its last IntermediateRoot
 
 	applied   int
 	armed     bool
@@ -303,6 +306,7 @@ type c14Sys struct {
 	initErr   error
 }
 
+var c14FollowUps atomic.Int64
 var c14Armed, c14Reopens, c14Persisted, c14AsideSweeps, c14Resurrections, c14Wipes atomic.Int64
 
 func c14NewSys(r *mc.R, cfg *c14Cfg, ops []c14Op) *c14Sys {
@@ -405,7 +409,7 @@ func (x *c14Sys) openBlock() error {
 	if x.cfg.Prefetch {
 		s.StartPrefetcher("c14", nil)
 	}
-	x.txOps, x.blockOps, x.copied = 0, 0, false
+	x.txOps, x.blockOps, x.copied, x.dirty = 0, 0, false, false
 	return nil
 }
 
@@ -432,7 +436,7 @@ func (x *c14Sys) Enabled(i int) bool {
 	}
 	o := x.ops[i]
 	var a *c14Acct
-	if o.kind != "endtx" && o.kind != "endblock" && !strings.HasPrefix(o.kind, "copy") {
+	if o.kind != "endtx" && o.kind != "endblock" && o.kind != "ir" && !strings.HasPrefix(o.kind, "copy") {
 		a = x.m.cur[o.a]
 	}
 	switch o.kind {
@@ -453,6 +457,8 @@ func (x *c14Sys) Enabled(i int) bool {
 		return a == nil || (a.Nonce == 0 && a.Code == 0 && a.Stor == [c14NS]uint8{} && !a.Destructed)
 	case "endtx":
 		return x.txOps > 0
+	case "ir":
+		return x.dirty
 	case "endblock":
 		return x.blockOps > 0
 	case "copyOnCopy", "copyOnOrig":
@@ -520,6 +526,15 @@ func (x *c14Sys) apply(i int, check bool) error {
 		s.Finalise(x.rules)
 		m.endTx()
 		x.txOps = -1
+	case "ir":
+		// mid-block IntermediateRoot (receipts before Byzantium, miner, tracing): transaction
+		// boundary plus loading and updating the tries
+		root := s.IntermediateRoot(x.rules)
+		m.endTx()
+		if want := m.cur.root(); root != want {
+			return fmt.Errorf("IntermediateRoot %x, root of the model state %x", root, want)
+		}
+		x.txOps = -1
 	case "copyOnCopy", "copyOnOrig":
 		cp := s.Copy()
 		x.copied = true
@@ -536,6 +551,13 @@ func (x *c14Sys) apply(i int, check bool) error {
 	}
 	x.txOps++
 	x.blockOps++
+	switch o.kind {
+	case "ir":
+		x.dirty = false
+	case "endtx", "copyOnCopy", "copyOnOrig":
+	default:
+		x.dirty = true
+	}
 	x.key = x.computeKey()
 	if !check {
 		return nil
@@ -606,6 +628,9 @@ func (x *c14Sys) endBlock(check bool) error {
 			if err := x.verifyRoot(root, &x.m.cur, "block state after the other side of the Copy was committed too"); err != nil {
 				return err
 			}
+			if err := x.followUp(aroot, &x.am.cur, "state committed from the "+x.asideWhat+" left aside"); err != nil {
+				return err
+			}
 			if !x.cfg.Path { // the hash scheme keeps both forks when one of them is flushed
 				if err := x.verifyPersisted(aroot, &x.am.cur); err != nil {
 					return fmt.Errorf("state committed from the %s left aside: %v", x.asideWhat, err)
@@ -615,6 +640,9 @@ func (x *c14Sys) endBlock(check bool) error {
 		x.aside, x.am = nil, nil
 	}
 	if check {
+		if err := x.followUp(root, &x.m.cur, "block state"); err != nil {
+			return err
+		}
 		if err := x.verifyPersisted(root, &x.m.cur); err != nil {
 			return err
 		}
@@ -864,6 +892,67 @@ func (x *c14Sys) verifyRoot(root common.Hash, v *c14View, what string) error {
 	return x.checkDB(x.db, x.tdb, flat, root, v, what+" ["+x.cfg.Name+"]")
 }
 
+// followUp executes one more block on top of a committed root: every account of the model is
+// touched (balance +1, which walks every path of the account trie) and slot s1 of every account
+// with storage is written; the block is committed and its root re-read through the readers.
+func (x *c14Sys) followUp(root common.Hash, v *c14View, what string) error {
+	c14FollowUps.Add(1)
+	what = "follow-up block on " + what + " [" + x.cfg.Name + "]"
+	s, err := New(root, x.db)
+	if err != nil {
+		return fmt.Errorf("%s: state.New(%x): %v", what, root, err)
+	}
+	next := v.clone()
+	for i, a := range next {
+		if a == nil {
+			continue
+		}
+		s.AddBalance(c14Addrs[i], uint256.NewInt(1), tracing.BalanceChangeUnspecified)
+		a.Bal++
+		if a.Stor != [c14NS]uint8{} {
+			s.SetState(c14Addrs[i], c14Slots[1], c14Val(5))
+			a.Stor[1] = 5
+		}
+	}
+	ir := s.IntermediateRoot(x.rules)
+	nroot, err := s.Commit(x.rules, x.block+1)
+	if err != nil {
+		return fmt.Errorf("%s: Commit: %v", what, err)
+	}
+	if s.Error() != nil {
+		return fmt.Errorf("%s: StateDB.Error(): %v", what, s.Error())
+	}
+	if want := next.root(); nroot != want || ir != nroot {
+		return fmt.Errorf("%s: Commit root %x, IntermediateRoot %x, root of the model state %x", what, nroot, ir, want)
+	}
+	tr, err := newMPTTrieReader(nroot, x.tdb)
+	if err != nil {
+		return fmt.Errorf("%s: trie reader: %v", what, err)
+	}
+	if err := c14CheckReader(tr, &next, what+", trie reader"); err != nil {
+		return err
+	}
+	var flat StateReader
+	switch {
+	case x.cfg.Path:
+		sr, err := x.tdb.StateReader(nroot)
+		if err != nil {
+			return fmt.Errorf("%s: pathdb StateReader: %v", what, err)
+		}
+		flat = newFlatReader(sr)
+	case x.cfg.Snap:
+		if snap := x.snaps.Snapshot(nroot); snap != nil {
+			flat = newFlatReader(snap)
+		} else {
+			return fmt.Errorf("%s: no snapshot layer for %x", what, nroot)
+		}
+	}
+	if flat != nil {
+		return c14CheckReader(flat, &next, what+", flat reader")
+	}
+	return nil
+}
+
 // verifyPersisted flushes the root to disk and reads it back through a second
 // trie database opened on the same disk.
 func (x *c14Sys) verifyPersisted(root common.Hash, v *c14View) error {
@@ -952,7 +1041,7 @@ func (x *c14Sys) computeKey() string {
 	x.m.cur.canon(&b)
 	b.WriteByte('|')
 	x.m.txStart.canon(&b)
-	fmt.Fprintf(&b, "|%d,%d,%v|", min(x.txOps, 1), min(x.blockOps, 1), x.copied)
+	fmt.Fprintf(&b, "|%d,%d,%v,%v|", min(x.txOps, 1), min(x.blockOps, 1), x.copied, x.dirty)
 	c14Finger(&b, x.s)
 	if x.aside != nil {
 		b.WriteString("|" + x.asideWhat + "|")
@@ -967,6 +1056,11 @@ func (x *c14Sys) computeKey() string {
 
 func (x *c14Sys) Key() string { return x.key }
 
+// c14AfterIR: mid-block start state after an IntermediateRoot in which C was changed and A was
+// written and restored (A's account is rewritten with identical content: its trie path is
+// resolved in the loaded account trie, the leaf stays clean); tries and their tracers are live.
+var c14AfterIR = []string{"AddBalance(C,1)", "SetState(A,s0,3)", "SetState(A,s0,1)", "IntermediateRoot"}
+
 func c14Configs(r *mc.R) []*c14Cfg {
 	deep, shallow := mc.Pick(r, 4, 5), mc.Pick(r, 3, 5)
 	return []*c14Cfg{
@@ -976,6 +1070,8 @@ func c14Configs(r *mc.R) []*c14Cfg {
 		{Name: "path@A-destructed", Depth: deep, Path: true, Prefix: []string{"SelfDestruct(A)", "EndTx"}},
 		{Name: "path@A-two-slots-written", Depth: deep, Path: true, Prefix: []string{"SetState(A,s0,3)", "SetState(A,s2,4)", "EndTx"}},
 		{Name: "hash+snapshot@A-two-slots-written", Depth: shallow, Snap: true, Prefix: []string{"SetState(A,s0,3)", "SetState(A,s2,4)", "EndTx"}},
+		{Name: "path@after-IntermediateRoot", Depth: shallow, Path: true, Prefix: c14AfterIR},
+		{Name: "hash+snapshot@after-IntermediateRoot", Depth: shallow, Snap: true, Prefix: c14AfterIR},
 		{Name: "path/cancun", Depth: shallow, Path: true, Cancun: true},
 		{Name: "hash", Depth: shallow, Path: false},
 		{Name: "hash+snapshot/cancun", Depth: shallow, Snap: true, Cancun: true},
@@ -989,7 +1085,7 @@ func TestVerif_C14(t *testing.T) {
 		defer debug.SetGCPercent(debug.SetGCPercent(400)) // allocation-heavy, tiny live heap
 		r.Rule("BFS over operation sequences on a StateDB opened on a committed base state (contract A with code and 2 slots, plain account B, absent C, untouched contract D); " +
 			"alphabet on A and C: SetState(s0,3|0), SetState(s2,4), writes of the committed base value of s0/s2 (restore), SelfDestruct, Create (= evm.create: CreateAccount if absent, CreateContract, nonce 1), AddBalance, SetCode; " +
-			"EndTx (Finalise), EndBlock (IntermediateRoot, Commit, next block on state.New(root)), Copy continuing on the copy / on the original (the other side is left alone and committed at EndBlock); " +
+			"EndTx (Finalise), IntermediateRoot mid-block, EndBlock (IntermediateRoot, Commit, next block on state.New(root)), Copy continuing on the copy / on the original (the other side is left alone and committed at EndBlock); " +
 			"one exploration per configuration {hash, hash+snapshot, path} x {pre-Cancun, Cancun} (+ prefetcher); a state = model + white-box fingerprint of the StateDB(s)")
 		r.Assume("reference model = plain account table (balance, nonce, code, storage) with transaction/block boundaries; expected roots from an ordered stack trie over the table")
 		r.Assume("API contract as driven by the EVM: SetState/SetCode on existing accounts, Create only on addresses without nonce/code/storage, SelfDestruct of pre-existing accounts only before Cancun (EIP-6780 afterwards)")
@@ -1014,6 +1110,7 @@ func TestVerif_C14(t *testing.T) {
 		r.OutcomeN("observed_transitions", c14Armed.Load())
 		r.OutcomeN("roots_reopened_and_checked", c14Reopens.Load())
 		r.OutcomeN("roots_persisted_and_reopened_from_disk", c14Persisted.Load())
+		r.OutcomeN("follow_up_blocks_on_committed_roots", c14FollowUps.Load())
 		r.OutcomeN("copy_other_side_sweeps", c14AsideSweeps.Load())
 		r.OutcomeN("commits_wiping_a_destructed_account_with_storage", c14Wipes.Load())
 		r.OutcomeN("commits_with_destructed_account_recreated_in_the_block", c14Resurrections.Load())
